@@ -146,6 +146,12 @@ type Sim struct {
 	parked  map[string]chan struct{}
 	on      bool // cooperative scheduling on (concurrent profiles)
 	tick    time.Duration
+	nticks  atomic.Int64
+	spun    atomic.Bool
+	total, maxWindow atomic.Int64
+	// spinAfter: driver events per counting window before the tick escalates (0: default)
+	spinAfter int64
+	curTick atomic.Int64
 	sleepin atomic.Int32
 
 	// fault plan: fires at the k-th driver event counted since arm (1-based)
@@ -380,13 +386,55 @@ func (s *Sim) park(id, point, tag string) {
 	<-ch
 }
 
+// spinAfter: driver events per run after which the SQL latency tick starts doubling (every
+// spinStep further events, up to one second). No run on the unchanged tree comes near it (stat
+// max_driver_events_per_run); it exists for code that polls storage in a loop without ever
+// blocking: under a virtual clock such a loop would starve time itself, with the escalation
+// the clock moves on, the loop's own deadline arrives and the oracles see what it returns.
+const (
+	spinAfterDefault = 30000
+	spinStep         = 512
+)
+
+// StepBegin starts a new counting window for the escalation (engines that work in steps call
+// it per step and use a smaller threshold, see Sim.spinAfter).
+func (s *Sim) StepBegin() {
+	if n := s.nticks.Swap(0); n > s.maxWindow.Load() {
+		s.maxWindow.Store(n)
+	}
+	s.curTick.Store(0)
+}
+
 func (s *Sim) doTick() {
 	if s == nil || s.tick <= 0 {
 		return
 	}
+	d := s.tick
+	s.total.Add(1)
+	after := s.spinAfter
+	if after == 0 {
+		after = spinAfterDefault
+	}
+	if n := s.nticks.Add(1); n > after {
+		shift := (n - after) / spinStep
+		if shift > 40 {
+			shift = 40
+		}
+		if d <<= shift; d > time.Second || d <= 0 {
+			d = time.Second
+		}
+		s.spun.Store(true)
+		s.curTick.Store(int64(d))
+	}
 	s.sleepin.Add(1)
-	time.Sleep(s.tick)
+	time.Sleep(d)
 	s.sleepin.Add(-1)
+}
+
+// Ticks reports the number of driver events of this run and whether the tick was escalated.
+func (s *Sim) Ticks() (total, maxWindow int64, spun bool) {
+	s.StepBegin()
+	return s.total.Load(), s.maxWindow.Load(), s.spun.Load()
 }
 
 // Settle waits until every other goroutine in the bubble is durably blocked and no task is
@@ -397,7 +445,11 @@ func (s *Sim) Settle() {
 		if s.sleepin.Load() == 0 {
 			return
 		}
-		time.Sleep(s.tick)
+		if d := time.Duration(s.curTick.Load()); d > s.tick {
+			time.Sleep(d)
+		} else {
+			time.Sleep(s.tick)
+		}
 	}
 }
 
@@ -504,8 +556,25 @@ func (d *yDriver) Open(name string) (driver.Conn, error) {
 	return &yConn{Conn: c}, nil
 }
 
+// BeginMark records when the request whose context carries it last began a transaction:
+// whatever that request returns from its last transaction was read after that instant.
+type BeginMark struct {
+	Last time.Time
+	N    int
+}
+
+type beginMarkKey struct{}
+
+func WithBeginMark(ctx context.Context) (context.Context, *BeginMark) {
+	m := &BeginMark{}
+	return context.WithValue(ctx, beginMarkKey{}, m), m
+}
+
 func (c *yConn) BeginTx(ctx context.Context, opts driver.TxOptions) (driver.Tx, error) {
 	s := S
+	if m, ok := ctx.Value(beginMarkKey{}).(*BeginMark); ok {
+		m.Last, m.N = time.Now(), m.N+1
+	}
 	if s != nil {
 		s.Yield(ctx, "begin")
 		switch s.event('b') {
